@@ -923,6 +923,17 @@ func (m *Model) VerifyFrom(ref string, start int) Verdict {
 	}
 	pol := m.policyAt(start)
 	unspecified := ""
+	// Once an entry's own verdict is unspecified (the implementation may
+	// legitimately treat it as valid or fail closed on it), every later step of
+	// the walk depends on which way it went - a fail-closed entry that is revoked
+	// starts a recovery that the "valid" reading never enters - so a rejection
+	// found after that point is not a verdict either.
+	reject := func(why string) Verdict {
+		if unspecified != "" {
+			return Verdict{Kind: "UNSPECIFIED", Why: unspecified + " (then: " + why + ")"}
+		}
+		return Verdict{Kind: "REJECT", Why: why}
+	}
 	// queue of event indices in range relevant to ref
 	var queue []int
 	for j := start; j <= last; j++ {
@@ -954,10 +965,10 @@ func (m *Model) VerifyFrom(ref string, start int) Verdict {
 			continue
 		}
 		if e.Kind == "prop" {
-			return Verdict{Kind: "REJECT", Why: fmt.Sprintf("propagation entry (event %d) is not authorised: %s", i, jv.Why)}
+			return reject(fmt.Sprintf("propagation entry (event %d) is not authorised: %s", i, jv.Why))
 		}
 		if !m.Skipped(i) {
-			return Verdict{Kind: "REJECT", Why: fmt.Sprintf("event %d violates policy and is not revoked: %s", i, jv.Why)}
+			return reject(fmt.Sprintf("event %d violates policy and is not revoked: %s", i, jv.Why))
 		}
 		// recovery: last good = latest unskipped reference entry for ref before i
 		good := -1
@@ -968,7 +979,7 @@ func (m *Model) VerifyFrom(ref string, start int) Verdict {
 			}
 		}
 		if good < 0 {
-			return Verdict{Kind: "REJECT", Why: fmt.Sprintf("event %d violates policy and there is no earlier unskipped state to recover to", i)}
+			return reject(fmt.Sprintf("event %d violates policy and there is no earlier unskipped state to recover to", i))
 		}
 		fixed := false
 		var deferred []int
@@ -990,10 +1001,10 @@ func (m *Model) VerifyFrom(ref string, start int) Verdict {
 			}
 		}
 		if !fixed {
-			return Verdict{Kind: "REJECT", Why: fmt.Sprintf("event %d violates policy, is revoked, but no later unskipped entry restores the tree of event %d", i, good)}
+			return reject(fmt.Sprintf("event %d violates policy, is revoked, but no later unskipped entry restores the tree of event %d", i, good))
 		}
 		if unskippedIntermediate {
-			return Verdict{Kind: "REJECT", Why: fmt.Sprintf("an entry between violation %d and its fix is not revoked", i)}
+			return reject(fmt.Sprintf("an entry between violation %d and its fix is not revoked", i))
 		}
 		queue = append(deferred, queue...)
 	}
